@@ -156,10 +156,19 @@ class Model:
 
 
 # ---------------------------------------------------------------- the oracle: C10's statement on real answers
-def oracle_index(pop, idx, eager):
-    """index lists exactly the ids/keywords the eager reader loads; fwd = mentions; rev = transpose; deps = closure"""
+def oracle_index(pop, idx, eager, eager_may_differ=False):
+    """index lists exactly the ids/keywords the eager reader loads; fwd = mentions; rev = transpose; deps = closure.
+    eager_may_differ: the file was rendered in a class that changes what is written (id-above-int-max): there the eager reader is
+    the reference as it is, not the generated population"""
     ids = {x["id"]: G.keyword(x) for x in pop}
     eag = {i: kw for i, (kw, _) in eager.items()}
+    if eag != ids and eager_may_differ:
+        got = {i: kw for kw, l in idx["kw"].items() for i in l}
+        if got != eag or idx["count"] != len(eag):
+            miss = sorted(set(eag) - set(got)); extra = sorted(set(got) - set(eag))
+            return "index", (f"lazy index (count {idx['count']}) differs from the eager reader's {len(eag)} instances: "
+                             f"missing {miss[:5]} extra {extra[:5]}")
+        return None, None
     if eag != ids:
         return None, f"(generator) eager reader loaded {sorted(eag.items())[:6]}.. but the file has {sorted(ids.items())[:6]}.."
     got = {}
@@ -217,7 +226,7 @@ def data_hex(text, off):
     return text[off:].encode("latin-1").hex()
 
 
-def check_file(exe, env, model, workdir, tag, text, off, pop, orders, extra_probe=3, first_only=False, budget=True):
+def check_file(exe, env, model, workdir, tag, text, off, pop, orders, extra_probe=3, first_only=False, budget=True, cls=None):
     """returns problems [(kind, where, detail)]; where starts with `fatal:` when the process hung or died on a signal.
     first_only: stop at the first property problem (used while shrinking)."""
     if budget and BUDGET.exhausted():
@@ -242,7 +251,7 @@ def check_file(exe, env, model, workdir, tag, text, off, pop, orders, extra_prob
                          f"opening the file with lazyInstMgr ended rc={rc_i}: {err_i.strip()[-300:]}"))
         return problems
     idx = parse_index(out_i)
-    kind, det = oracle_index(pop, idx, eager)
+    kind, det = oracle_index(pop, idx, eager, eager_may_differ=(cls == "id-above-int-max"))
     if det and kind is None:
         problems.append(("generator", "eager", det + " FILE: " + text[off:off + 6000]))
         return problems
@@ -250,6 +259,8 @@ def check_file(exe, env, model, workdir, tag, text, off, pop, orders, extra_prob
         problems.append(("property", kind, det))
         if first_only:
             return problems
+    if cls == "id-above-int-max":
+        return problems       # the written ids are not the population's: nothing further to compare against
     # model vs implementation: index
     for fld in ("count", "kw", "fwd", "rev", "dep"):
         a, m = idx[fld], midx[fld]
@@ -559,7 +570,7 @@ def run(ctx):
     def work(j):
         si, tag, text, off, pop, orders, cls = j
         try:
-            return j, check_file(exes[si], env, model, ctx.work, tag, text, off, pop, orders)
+            return j, check_file(exes[si], env, model, ctx.work, tag, text, off, pop, orders, cls=cls)
         except Exception as e:   # machinery
             return j, [("machinery", "check_file", f"{type(e).__name__}: {e}")]
     global BUDGET
